@@ -18,6 +18,7 @@ package main
 
 import (
 	"context"
+	"database/sql"
 	"database/sql/driver"
 	"encoding/json"
 	"fmt"
@@ -35,7 +36,9 @@ import (
 
 // Sub is one DB method call.
 type Sub struct {
-	Op     string      `json:"op"` // query queryrow fullscan count insert insertrows upsert upsertrows update delete
+	Op     string      `json:"op"` // query queryrow fullscan basequery count insert insertrows upsert upsertrows update delete
+	//                              withtx withexistingtx hastx queryexecer withshardlimit withdynamiclimit withpaniconnoindex
+	Step   *sqlh.Step  `json:"step,omitempty"` // withshardlimit / withdynamiclimit: the limit asked for
 	Filter sqlh.Filter `json:"filter,omitempty"`
 	Opts   *sqlh.Opts  `json:"opts,omitempty"`
 	Row    sqlh.Row    `json:"row,omitempty"`
@@ -53,6 +56,7 @@ type Case struct {
 	Filters  []sqlh.Filter `json:"filters,omitempty"` // batch, mbatch: one per caller
 	Handles  []sqlh.Handle `json:"handles,omitempty"` // mbatch
 	Owners   []int         `json:"owners,omitempty"`  // mbatch: index into Handles per caller
+	Steps    []sqlh.Step   `json:"steps,omitempty"`   // single method: the With* calls that derive the handle from a fresh DB (Handle is what they yield); empty = shard limit, then dynamic limit, as Handle says
 	Ops      []Sub         `json:"ops,omitempty"`     // txseq
 	Origin   string        `json:"origin"`
 }
@@ -74,10 +78,11 @@ type result struct {
 	subs    []obs           // single: 1, txseq: one per op, batch/mbatch: one per caller (log empty)
 	log     []fakesql.Entry // everything between the harness's own Begin and Commit/Rollback
 	arrival [][]int
-	foreign int // committed changes to rows whose before-image lies outside an enforced limit
+	refused []bool // per step of Case.Steps: the With* call answered an error
+	foreign int    // committed changes to rows whose before-image lies outside an enforced limit
 }
 
-func execSub(db *sqlgen.DB, ctx context.Context, t *sqlh.TableDesc, pool sqlh.Pool, s Sub) (err error, pt string, count int64) {
+func execSub(db *sqlgen.DB, ctx context.Context, t *sqlh.TableDesc, pool sqlh.Pool, s Sub, extTx *sql.Tx) (err error, pt string, count int64) {
 	count = -1
 	switch s.Op {
 	case "query":
@@ -106,11 +111,79 @@ func execSub(db *sqlgen.DB, ctx context.Context, t *sqlh.TableDesc, pool sqlh.Po
 		err, pt = sqlh.Safely(func() error { return db.InsertRows(ctx, t.SliceOf(s.Rows, pool), s.Chunk) })
 	case "upsertrows":
 		err, pt = sqlh.Safely(func() error { return db.UpsertRows(ctx, t.SliceOf(s.Rows, pool), s.Chunk) })
+	case "basequery":
+		err, pt = sqlh.Safely(func() error {
+			q, err := db.Schema.MakeSelect(t.NewResultSlice(), s.Filter.Go(pool), s.Opts.Go())
+			if err != nil {
+				return err
+			}
+			_, err = db.BaseQuery(ctx, q)
+			return err
+		})
+	case "withtx":
+		err, pt = sqlh.Safely(func() error {
+			_, tx, err := db.WithTx(ctx)
+			if err == nil && tx != nil {
+				cleanups = append(cleanups, func() { tx.Rollback() }) // after the log of the call has been read
+			}
+			return err
+		})
+	case "withexistingtx":
+		err, pt = sqlh.Safely(func() error {
+			if extTx == nil {
+				return fmt.Errorf("harness: no transaction to hand over")
+			}
+			_, err := db.WithExistingTx(ctx, extTx)
+			return err
+		})
+	case "hastx":
+		err, pt = sqlh.Safely(func() error {
+			if db.HasTx(ctx) {
+				count = 11
+			} else {
+				count = 10
+			}
+			return nil
+		})
+	case "queryexecer":
+		err, pt = sqlh.Safely(func() error {
+			if db.QueryExecer(ctx) == nil {
+				return fmt.Errorf("harness: QueryExecer answered nil")
+			}
+			return nil
+		})
+	case "withshardlimit", "withdynamiclimit", "withpaniconnoindex":
+		err, pt = sqlh.Safely(func() error {
+			st := sqlh.Step{Kind: "explain"}
+			if s.Step != nil {
+				st = *s.Step
+			}
+			return sqlh.DeriveOne(db, st, pool)
+		})
 	default:
 		pt = "harness: unknown op " + s.Op
 	}
 	return
 }
+
+// cleanups: what the harness has to undo after a case (transactions opened by a WithTx under test).
+var cleanups []func()
+
+// configOp: the methods that send no row-level statement (they derive handles / contexts or answer a question).
+func configOp(op string) bool {
+	switch op {
+	case "withtx", "withexistingtx", "hastx", "queryexecer", "withshardlimit", "withdynamiclimit", "withpaniconnoindex":
+		return true
+	}
+	return false
+}
+
+// methodOf: the exported method of sqlgen.DB a Sub calls.
+var methodOf = map[string]string{"query": "Query", "queryrow": "QueryRow", "fullscan": "FullScanQuery", "basequery": "BaseQuery",
+	"count": "Count", "insert": "InsertRow", "insertrows": "InsertRows", "upsert": "UpsertRow", "upsertrows": "UpsertRows",
+	"update": "UpdateRow", "delete": "DeleteRow", "withtx": "WithTx", "withexistingtx": "WithExistingTx", "hastx": "HasTx",
+	"queryexecer": "QueryExecer", "withshardlimit": "WithShardLimit", "withdynamiclimit": "WithDynamicLimit",
+	"withpaniconnoindex": "WithPanicOnNoIndex"}
 
 func mkObs(log []fakesql.Entry, err error, pt string, count int64) obs {
 	o := obs{log: log, panicTx: pt, count: count, errored: err != nil || pt != ""}
@@ -122,6 +195,14 @@ func mkObs(log []fakesql.Entry, err error, pt string, count int64) obs {
 		o.detail = "panic: " + pt
 	}
 	return o
+}
+
+// steps: the chain of With* calls that yields the handle of a single-method case.
+func (c Case) steps() []sqlh.Step {
+	if len(c.Steps) > 0 {
+		return c.Steps
+	}
+	return sqlh.StepsOf(c.Handle)
 }
 
 func (c Case) callerHandle(i int) sqlh.Handle {
@@ -239,6 +320,18 @@ func runCase(c Case, run *vh.Run, idx int) (res result, fatal string) {
 		ctx = batch.WithBatching(ctx)
 	}
 	db := env.DB
+	if len(c.Steps) > 0 { // the handle is derived from the fresh DB by the case's own chain of With* calls
+		var refused []bool
+		db, refused = env.Derive(c.Steps)
+		res.refused = refused
+	}
+	var extTx *sql.Tx
+	if c.Op == "withexistingtx" {
+		if extTx, err = env.Begin(); err != nil {
+			return res, "Begin: " + err.Error()
+		}
+		defer extTx.Rollback()
+	}
 	var tx interface {
 		Commit() error
 		Rollback() error
@@ -257,11 +350,19 @@ func runCase(c Case, run *vh.Run, idx int) (res result, fatal string) {
 	}
 	for _, s := range subs {
 		before := len(env.Srv.Log())
-		e, pt, n := execSub(db, ctx, t, env.Pool, s)
+		e, pt, n := execSub(db, ctx, t, env.Pool, s, extTx)
 		log := env.Srv.Log()
-		res.subs = append(res.subs, mkObs(log[before:], e, pt, n))
+		ob := mkObs(log[before:], e, pt, n)
+		if s.Op == "hastx" && !ob.errored {
+			ob.outcome = int(n) // 10 = false, 11 = true
+		}
+		res.subs = append(res.subs, ob)
 	}
 	res.log = env.Srv.Log()
+	for _, f := range cleanups {
+		f()
+	}
+	cleanups = nil
 	if tx != nil {
 		if c.Commit {
 			tx.Commit()
@@ -306,8 +407,24 @@ func oracleSub(c Case, t *sqlh.TableDesc, limits []sqlh.Filter, s Sub, o obs, co
 			}
 		}
 	}
+	if configOp(s.Op) {
+		// these methods derive handles and contexts: none of them may send a row-level statement, and a limit
+		// or setting that is already there cannot be replaced (the call must be refused)
+		if len(stmts) > 0 {
+			run.Fail(idx, "c12-config-method-issued-statement", methodOf[s.Op]+": "+stmts[0].SQL, c)
+		}
+		h, explain, _ := sqlh.HandleOf(c.steps())
+		already := s.Op == "withshardlimit" && h.Shard != nil || s.Op == "withdynamiclimit" && h.HasDyn || s.Op == "withpaniconnoindex" && explain
+		if already && !o.errored {
+			run.Fail(idx, "c12-existing-limit-replaced", methodOf[s.Op]+" on a handle that already has one was not refused", c)
+		}
+		if s.Op == "hastx" && !o.errored && (o.outcome == 11) != (c.InTx || c.Op == "txseq") {
+			run.Fail(idx, "c12-hastx-wrong", fmt.Sprintf("HasTx answered %v", o.outcome == 11), c)
+		}
+		return
+	}
 	switch s.Op {
-	case "query", "queryrow", "fullscan", "count":
+	case "query", "queryrow", "fullscan", "basequery", "count":
 		for _, l := range limits {
 			if !filterComplies(t, s.Filter, l, pool) {
 				if !o.errored {
@@ -530,6 +647,21 @@ func oracle(c Case, res result, run *vh.Run, idx int) {
 			oracleSub(c, t, c.Handle.Enforced(), s, res.subs[k], false, run, idx)
 		}
 	default:
+		if len(c.Steps) > 0 {
+			h, _, want := sqlh.HandleOf(c.Steps)
+			hj, _ := json.Marshal(h)
+			cj, _ := json.Marshal(c.Handle)
+			if string(hj) != string(cj) {
+				run.Fail(idx, "c12-harness-cannot-run", "the case's handle is not what its steps yield", c)
+				return
+			}
+			for i := range want {
+				if i < len(res.refused) && want[i] && !res.refused[i] {
+					run.Fail(idx, "c12-existing-limit-replaced", fmt.Sprintf("With* call %d of the chain was accepted although the handle already had that limit", i), c)
+					return
+				}
+			}
+		}
 		oracleSub(c, t, c.Handle.Enforced(), c.Sub, res.subs[0], true, run, idx)
 	}
 }
@@ -575,6 +707,68 @@ func coqSub(s Sub) string {
 	panic("coqSub " + s.Op)
 }
 
+// coqCall prints a Sub as the model's [call]: one constructor per exported method of sqlgen.DB.
+func coqCall(s Sub) string {
+	f := s.Filter
+	if f == nil {
+		f = sqlh.Filter{}
+	}
+	rows := func() string {
+		xs := make([]string, len(s.Rows))
+		for i, r := range s.Rows {
+			xs[i] = r.Coq()
+		}
+		return vh.CoqList(xs)
+	}
+	switch s.Op {
+	case "query":
+		return fmt.Sprintf("(CQuery %s %s)", f.Coq(), s.Opts.CoqCall())
+	case "queryrow":
+		return fmt.Sprintf("(CQueryRow %s %s)", f.Coq(), s.Opts.CoqCall())
+	case "fullscan":
+		return fmt.Sprintf("(CFullScanQuery %s %s)", f.Coq(), s.Opts.CoqCall())
+	case "basequery":
+		return fmt.Sprintf("(CBaseQuery %s %s)", f.Coq(), s.Opts.CoqCall())
+	case "count":
+		return fmt.Sprintf("(CCount %s)", f.Coq())
+	case "insert":
+		return fmt.Sprintf("(CInsertRow %s)", s.Row.Coq())
+	case "upsert":
+		return fmt.Sprintf("(CUpsertRow %s)", s.Row.Coq())
+	case "update":
+		return fmt.Sprintf("(CUpdateRow %s)", s.Row.Coq())
+	case "delete":
+		return fmt.Sprintf("(CDeleteRow %s)", s.Row.Coq())
+	case "insertrows":
+		return fmt.Sprintf("(CInsertRows %s %d)", rows(), s.Chunk)
+	case "upsertrows":
+		return fmt.Sprintf("(CUpsertRows %s %d)", rows(), s.Chunk)
+	case "withtx":
+		return "CWithTx"
+	case "withexistingtx":
+		return "CWithExistingTx"
+	case "hastx":
+		return "CHasTx"
+	case "queryexecer":
+		return "CQueryExecer"
+	case "withpaniconnoindex":
+		return "CWithPanicOnNoIndex"
+	case "withshardlimit":
+		f := sqlh.Filter{}
+		if s.Step != nil && s.Step.Filter != nil {
+			f = s.Step.Filter
+		}
+		return "(CWithShardLimit " + f.Coq() + ")"
+	case "withdynamiclimit":
+		st := sqlh.Step{Kind: "dyn"}
+		if s.Step != nil {
+			st = *s.Step
+		}
+		return "(CWithDynamicLimit " + strings.TrimSuffix(strings.TrimPrefix(st.Coq(), "(StDyn "), ")") + ")"
+	}
+	panic("coqCall " + s.Op)
+}
+
 func coqCaseOp(c Case, res result) string {
 	switch c.Op {
 	case "batch":
@@ -596,7 +790,14 @@ func coqCaseOp(c Case, res result) string {
 		}
 		return "(Seq " + vh.CoqList(ops) + ")"
 	}
-	return "(Single " + coqSub(c.Sub) + ")"
+	steps := c.steps()
+	xs := make([]string, len(steps))
+	rs := make([]string, len(steps))
+	for i, st := range steps {
+		xs[i] = st.Coq()
+		rs[i] = vh.CoqBool(i < len(res.refused) && res.refused[i])
+	}
+	return fmt.Sprintf("(SingleCall %s %s %s)", vh.CoqList(xs), vh.CoqList(rs), coqCall(c.Sub))
 }
 
 func main() {
@@ -632,6 +833,7 @@ func main() {
 		}
 	}
 
+	exercised := map[string]int{}
 	const shard = 250
 	var terms []string
 	start := 0
@@ -639,7 +841,7 @@ func main() {
 		if len(terms) == 0 {
 			return
 		}
-		run.WriteCasesV(fmt.Sprintf("cases_%d.v", start), []string{"Sql.Model", "Sql.ModelCheck"}, "", "mismatches_c12", 0, terms)
+		run.WriteCasesV(fmt.Sprintf("cases_%d.v", start), []string{"Sql.Model", "Sql.Methods", "Sql.ModelCheck"}, "", "mismatches_c12", 0, terms)
 		start += len(terms)
 		terms = nil
 	}
@@ -655,13 +857,47 @@ func main() {
 
 		run.Hist("op:" + c.Op)
 		run.Hist("table:" + c.Table)
+		for _, s := range append([]Sub{c.Sub}, c.Ops...) {
+			if m, ok := methodOf[s.Op]; ok {
+				exercised[m]++
+			}
+		}
+		if c.Op == "batch" || c.Op == "mbatch" {
+			exercised["Query"] += len(c.Filters)
+		}
+		if c.InTx || c.Op == "txseq" {
+			exercised["WithTx"]++
+		}
+		if len(c.Steps) > 0 {
+			run.Hist(fmt.Sprintf("handle-chain:%d With* calls", len(c.Steps)))
+			for i, st := range c.Steps {
+				exercised[map[string]string{"shard": "WithShardLimit", "dyn": "WithDynamicLimit", "explain": "WithPanicOnNoIndex"}[st.Kind]]++
+				if i < len(res.refused) && res.refused[i] {
+					run.Hist("handle-chain:a With* call refused (limit already set)")
+				}
+			}
+			if _, ex, _ := sqlh.HandleOf(c.Steps); ex {
+				run.Hist("handle:panic-on-no-index (EXPLAIN before every statement of its own)")
+			}
+		} else {
+			if c.Handle.Shard != nil {
+				exercised["WithShardLimit"]++
+			}
+			if c.Handle.HasDyn {
+				exercised["WithDynamicLimit"]++
+			}
+		}
 		enforced := len(c.Handle.Enforced()) > 0
 		for _, h := range c.Handles {
 			enforced = enforced || len(h.Enforced()) > 0
 		}
 		allBad, dbErr := true, false
 		for _, ob := range res.subs {
-			run.Hist([]string{"outcome:proceeds", "outcome:rejected", "outcome:bad-input", "outcome:panic"}[ob.outcome])
+			if ob.outcome >= 10 {
+				run.Hist("outcome:answer")
+			} else {
+				run.Hist([]string{"outcome:proceeds", "outcome:rejected", "outcome:bad-input", "outcome:panic"}[ob.outcome])
+			}
 			if ob.outcome != sqlh.BadInput {
 				allBad = false
 			}
@@ -746,6 +982,16 @@ func main() {
 			run.Hist("skipped-model:value-outside-model")
 			continue
 		}
+		outsideSeq := false
+		for _, s := range c.Ops {
+			if configOp(s.Op) || s.Op == "basequery" {
+				outsideSeq = true // the sequence model speaks of the row-level methods only
+			}
+		}
+		if c.Op == "txseq" && outsideSeq {
+			run.Hist("skipped-model:sequence-with-config-method")
+			continue
+		}
 		outs := make([]string, len(res.subs))
 		for i, ob := range res.subs {
 			outs[i] = fmt.Sprint(ob.outcome)
@@ -763,5 +1009,25 @@ func main() {
 		return
 	}
 	flush()
+	// every exported method of sqlgen.DB (as the compiled package shows them) and how often this run called it
+	dbType := reflect.TypeOf(&sqlgen.DB{})
+	called := 0
+	for i := 0; i < dbType.NumMethod(); i++ {
+		m := dbType.Method(i).Name
+		known := false
+		for _, k := range methodOf {
+			known = known || k == m
+		}
+		switch {
+		case !known:
+			run.Hist("method-outside-the-harness:" + m + " (Gen/DbMethods.v and the theorem c12_every_exported_method_is_modelled decide whether it can reach the database)")
+		case exercised[m] > 0:
+			called++
+			run.Histogram["method:"+m] += exercised[m]
+		default:
+			run.Hist("method-not-called-in-this-run:" + m)
+		}
+	}
+	run.Hist(fmt.Sprintf("methods: %d of the %d exported methods of sqlgen.DB called", called, dbType.NumMethod()))
 	run.Finish()
 }
